@@ -97,3 +97,8 @@ Theorem C17_source_host_port_subcomponent : forall u : url,
   gen_host_subcomponent u = host_subcomponent u /\ gen_host_port_subcomponent u = host_port_subcomponent u.
 Proof. intros u. split; [apply gen_host_subcomponent_ok|apply gen_host_port_subcomponent_ok]. Qed.
 Print Assumptions C17_source_host_port_subcomponent.
+
+(** ... and with_port itself (None | bool | int: bool rejected with TypeError, range checked) *)
+Theorem C17_source_with_port : forall (B : backend) (u : url) (p : portarg), gen_with_port B u p = with_port B u p.
+Proof. exact gen_with_port_ok. Qed.
+Print Assumptions C17_source_with_port.
